@@ -184,6 +184,19 @@ struct Model {
         }
         return out;
     }
+    // the Hamiltonian as a matrix on the full Fock space, assembled from the prepared blocks; entries scaled to integers
+    json jq_hfock(long scale) {
+        json ent = json::array();
+        for (int b = 0; b < S->NumberOfBlocks(); ++b) {
+            const MatrixType& Hm = H->getPart(BlockNumber(b)).getMatrix();
+            const std::vector<FockState>& st = S->getFockStates(BlockNumber(b));
+            for (int r = 0; r < Hm.rows(); ++r)
+                for (int c = 0; c < Hm.cols(); ++c)
+                    if (Hm(r, c) != MelemType(0))
+                        ent.push_back(json::array({(long)st[r].to_ulong(), (long)st[c].to_ulong(), exact_num(mre(Hm(r, c)), scale), exact_num(mim(Hm(r, c)), scale)}));
+        }
+        return ent;
+    }
     json jq_eig() {
         json out = json::array();
         for (int b = 0; b < S->NumberOfBlocks(); ++b) {
@@ -272,6 +285,8 @@ struct Model {
             else if (name == "hpoly") { if (build_index()) { r["M"] = M; r["poly"] = jq_hpoly(); } }
             else if (name == "blocks") { if (build_blocks()) { r["M"] = M; json b = jq_blocks(); for (auto it = b.begin(); it != b.end(); ++it) r[it.key()] = it.value(); } }
             else if (name == "hmatrix") { if (build_h(false)) { r["M"] = M; r["blocks"] = jq_hmatrix(); } }
+            else if (name == "hfock") { if (build_h(false)) { r["M"] = M; r["tab"] = jq_index(); r["entries"] = jq_hfock(q.value("scale", 1L)); r["scale"] = q.value("scale", 1L);
+                                                              r["sites"] = sc["sites"]; r["calls"] = sc["build"]; r["den"] = box.den; } }
             else if (name == "eig") { if (build_h()) { r["M"] = M; r["blocks"] = jq_eig(); } }
             else if (name == "spectrum") { if (build_h()) { r["M"] = M; json b = jq_spectrum(); for (auto it = b.begin(); it != b.end(); ++it) r[it.key()] = it.value(); } }
             else if (name == "fieldops") q_fieldops(q, r);
